@@ -106,7 +106,7 @@ fn gen_what(r: &mut Prng, types: &[usize], pool: &mut Vec<crate::subjects::Amt>)
                 // a multiple of one, in any of its representations (1, 1.0, 1.00 …)
                 per = match per {
                     crate::subjects::Amt::F(_) => crate::subjects::Amt::F(1f64.to_bits()),
-                    crate::subjects::Amt::D(..) => {
+                    crate::subjects::Amt::D(..) | crate::subjects::Amt::X(..) => {
                         let f = r.below(4) as u8;
                         crate::subjects::Amt::D(10i64.pow(f as u32), f)
                     }
@@ -162,7 +162,7 @@ fn lite_op(what: &mut What, spec: &mut Spec, seed: u64) {
         let v = (r.below(4001) as i64 - 2000, r.below(3) as u8);
         *a = match *a {
             Amt::F(_) => Amt::F((v.0 as f64 / [1.0, 10.0, 100.0][v.1 as usize]).to_bits()),
-            Amt::D(..) => Amt::D(v.0, v.1),
+            Amt::D(..) | Amt::X(..) => Amt::D(v.0, v.1),
         };
     };
     match what {
